@@ -12,6 +12,7 @@ import (
 	"bufio"
 	"context"
 	"encoding/json"
+	"errors"
 	"fmt"
 	"log"
 	logslog "log/slog"
@@ -90,6 +91,8 @@ var c14calls = []c14call{
 	{"l", "Fail", 0, func(c *c14ctx) { c.mark(); c.l.Fail(c.msg, c.args...) }},
 	{"l", "Verbose", 0, func(c *c14ctx) { c.mark(); c.l.Verbose(c.msg, c.args...) }},
 	{"l", "Println", 1, func(c *c14ctx) { c.mark(); c.l.Println(append([]any{c.msg}, c.args...)...) }},
+	{"l", "Println", 1, func(c *c14ctx) { c.mark(); c.l.Println(42, "k", 1) }},
+	{"l", "Println", 1, func(c *c14ctx) { c.mark(); c.l.Println(errors.New("first argument is an error")) }},
 	{"l", "PanicContext", 0, func(c *c14ctx) { c.mark(); c.l.PanicContext(c.ctx, c.msg, c.args...) }},
 	{"l", "FatalContext", 0, func(c *c14ctx) { c.mark(); c.l.FatalContext(c.ctx, c.msg, c.args...) }},
 	{"l", "ErrorContext", 0, func(c *c14ctx) { c.mark(); c.l.ErrorContext(c.ctx, c.msg, c.args...) }},
@@ -123,6 +126,7 @@ var c14calls = []c14call{
 	{"p", "Verbose", 0, func(c *c14ctx) { c.mark(); slog.Verbose(c.msg, c.args...) }},
 	{"p", "VerboseContext", 0, func(c *c14ctx) { c.mark(); slog.VerboseContext(c.ctx, c.msg, c.args...) }},
 	{"p", "Println", 1, func(c *c14ctx) { c.mark(); slog.Println(append([]any{c.msg}, c.args...)...) }},
+	{"p", "Println", 1, func(c *c14ctx) { c.mark(); slog.Println(3.14) }},
 	{"p", "PanicContext", 0, func(c *c14ctx) { c.mark(); slog.PanicContext(c.ctx, c.msg, c.args...) }},
 	{"p", "FatalContext", 0, func(c *c14ctx) { c.mark(); slog.FatalContext(c.ctx, c.msg, c.args...) }},
 	{"p", "ErrorContext", 0, func(c *c14ctx) { c.mark(); slog.ErrorContext(c.ctx, c.msg, c.args...) }},
